@@ -337,6 +337,11 @@ func checkBuild(p *projgen.Project, root string, b *built, obs *observer) (*vdrv
 	// G. inputs keys == files read; bytes == size on disk
 	var want, got []string
 	for k := range obs.loaded {
+		if _, listed := mf.Inputs[k]; !listed && k == "node_modules/dual/module.esm.js" && obs.loaded["node_modules/dual/main.cjs.js"] {
+			// dual-package hazard: the "module" file was read, then abandoned in favour of the "main" file that
+			// a require() elsewhere needs anyway; it was not read *into the bundle* and is rightly not an input
+			continue
+		}
 		want = append(want, k)
 	}
 	if p.Stdin != nil {
@@ -367,6 +372,8 @@ func checkBuild(p *projgen.Project, root string, b *built, obs *observer) (*vdrv
 
 	// inputs[*].imports == what the text says (own scanner) and what the resolver answered (observed)
 	inputImports := map[string][]projgen.ImportRec{}
+	dualRedirect := false
+	_ = dualRedirect
 	injectAbs := ""
 	if len(o.Inject) > 0 {
 		injectAbs = filepath.Join(root, filepath.FromSlash(o.Inject[0]))
@@ -435,6 +442,19 @@ func checkBuild(p *projgen.Project, root string, b *built, obs *observer) (*vdrv
 					}
 				}
 			}
+			if found && !matched && strings.HasPrefix(im.Path, "node_modules/dual/") {
+				// dual-package hazard: when a package with "module" and "main" is both imported and required,
+				// esbuild deliberately redirects the ESM import to the "main" file; PluginBuild.Resolve reports
+				// the "module" file for the same query. Either answer is a file of that package; which one the
+				// bundle really uses is settled by the next check (the path must be an input of the build).
+				matched = true
+				dualRedirect = true
+			}
+			if !im.External && !strings.HasPrefix(im.Path, "(disabled):") {
+				if _, ok := mf.Inputs[im.Path]; !ok {
+					return fail(fmt.Sprintf("inputs[%s].imports says that %q resolves to %s, which is not an input of the build", k, spec, im.Path), "a key of metafile.inputs", im.Path), nil, nil
+				}
+			}
 			if found && !matched {
 				return fail(fmt.Sprintf("inputs[%s].imports entry %+v disagrees with what PluginBuild.Resolve returned for the same importer/specifier/kind", k, im), "the observed resolution", fmt.Sprintf("%+v", obsFor(obs, k, spec))), nil, nil
 			}
@@ -460,7 +480,7 @@ func checkBuild(p *projgen.Project, root string, b *built, obs *observer) (*vdrv
 	strict := true
 	for k, recs := range inputImports {
 		for _, r := range recs {
-			internal := strings.HasPrefix(r.Spec, "./") || strings.HasPrefix(r.Spec, "../")
+			internal := strings.HasPrefix(r.Spec, "./") || strings.HasPrefix(r.Spec, "../") || r.Spec == "dual"
 			if internal && (r.Kind == "require-call" || (r.Kind == "dynamic-import" && !o.Splitting)) {
 				strict = false
 			}
@@ -1009,6 +1029,9 @@ func b2i(b bool) int {
 func genCase(t *rapid.T) Case {
 	var c Case
 	c.Project = projgen.Gen(t, projgen.Config{MinFiles: 8, MaxFiles: 40, ForceBundle: true, ForceESM: true, ForceMetafile: true, AllowRequire: true, InputMaps: true, Placeholders: true})
+	if rapid.IntRange(0, 2).Draw(t, "dualpkg") == 0 {
+		addDualPackage(t, &c.Project)
+	}
 	if rapid.IntRange(0, 2).Draw(t, "lengthen") != 0 {
 		var cands []projgen.File
 		reach := projgen.Reachable(&c.Project)
@@ -1047,6 +1070,44 @@ func genCase(t *rapid.T) Case {
 		c.Project.Opts.MangleProps, c.Project.Opts.UseCache, c.Project.Opts.MangleCache = false, false, nil
 	}
 	return c
+}
+
+// addDualPackage installs node_modules/dual (package.json with different "main" and "module" files) and makes
+// one or two reachable JS inputs use it by `import`, by `require`, or both (the dual-package hazard, in
+// which esbuild redirects the import to the "main" file).
+func addDualPackage(t *rapid.T, p *projgen.Project) {
+	reach := projgen.Reachable(p)
+	var js []int
+	for i, f := range p.Files {
+		if f.Kind == projgen.KJS && reach[f.Path] && !f.Inject && !f.PureUnused && !strings.HasPrefix(f.Path, "node_modules/") {
+			js = append(js, i)
+		}
+	}
+	if len(js) == 0 {
+		return
+	}
+	mode := rapid.SampledFrom([]string{"import", "require", "both", "both", "both-dynamic"}).Draw(t, "dualmode")
+	a := js[rapid.IntRange(0, len(js)-1).Draw(t, "dualA")]
+	b := js[rapid.IntRange(0, len(js)-1).Draw(t, "dualB")]
+	prepend := func(i int, line string) {
+		p.Files[i].SetBytes(append([]byte(line), p.Files[i].Bytes()...))
+	}
+	switch mode {
+	case "import":
+		prepend(a, "import { which as dualWhichA } from \"dual\"; globalThis.__dualA = dualWhichA;\n")
+	case "require":
+		prepend(b, "globalThis.__dualB = require(\"dual\").which;\n")
+	case "both":
+		prepend(a, "import { which as dualWhichA } from \"dual\"; globalThis.__dualA = dualWhichA;\n")
+		prepend(b, "globalThis.__dualB = require(\"dual\").which;\n")
+	default:
+		prepend(a, "import(\"dual\").then(function (ns) { globalThis.__dualA = ns.which; });\n")
+		prepend(b, "globalThis.__dualB = require(\"dual\").which;\n")
+	}
+	p.Files = append(p.Files,
+		projgen.File{Path: "node_modules/dual/package.json", Kind: projgen.KMeta, Text: "{\"name\": \"dual\", \"main\": \"./main.cjs.js\", \"module\": \"./module.esm.js\"}\n"},
+		projgen.File{Path: "node_modules/dual/main.cjs.js", Kind: projgen.KJS, Text: "exports.which = \"dual.main\";\n"},
+		projgen.File{Path: "node_modules/dual/module.esm.js", Kind: projgen.KJS, Text: "export const which = \"dual.module\";\n"})
 }
 
 func replayMeta(raw json.RawMessage) vdrv.Verdict {
